@@ -29,10 +29,12 @@ import (
 func Retry(ctx context.Context,
 	s Strategy,
 	bizFunc func() error) error {
-	var ticker *time.Ticker
+	// 使用一次性的 Timer 而不是 Ticker：Ticker 在 bizFunc 执行期间也会继续触发，
+	// 残留的信号会让下一次等待立刻返回
+	var timer *time.Timer
 	defer func() {
-		if ticker != nil {
-			ticker.Stop()
+		if timer != nil {
+			timer.Stop()
 		}
 	}()
 	for {
@@ -45,16 +47,16 @@ func Retry(ctx context.Context,
 		if !ok {
 			return errs.NewErrRetryExhausted(err)
 		}
-		if ticker == nil {
-			ticker = time.NewTicker(duration)
+		if timer == nil {
+			timer = time.NewTimer(duration)
 		} else {
-			ticker.Reset(duration)
+			timer.Reset(duration)
 		}
 		select {
 		case <-ctx.Done():
 			// 超时或者被取消了，直接返回
 			return ctx.Err()
-		case <-ticker.C:
+		case <-timer.C:
 		}
 	}
 }
